@@ -54,14 +54,14 @@ CHECKS = {
              "analysis report and SourceReport::write; TLC then judges every recorded execution (spec/Trace_Parse.tla, "
              "predicates of spec/CookSpans.tla): tokens tile from the documented front-matter offset, every span, "
              "fragment and label in bounds and on character boundaries, fragments equal the input slice, events ordered, "
-             "report renders. Token kinds are compared with the model's prediction as drift. The parser itself is also specified as a parser (spec/CookParser.tla, a transcription of src/parser over the tokens of CookLexer; TLC enumerates every string up to a bound over ten kernel alphabets x extension sets, checks the design invariants and prints the predicted events; for whole documents TLC lexes and parses the recorded text itself) and TLC judges the real PullParser events against it (spec/Trace_Parser.tla): clauses EventsLocatedInOrder, EventsBracketed on the recorded events; exact equality of every span and label with the specification is reported as drift.",
+             "report renders. Token kinds are compared with the model's prediction as drift. The parser itself is also specified as a parser (spec/CookParser.tla, a transcription of src/parser over the tokens of CookLexer; TLC enumerates every string up to a bound over ten kernel alphabets x extension sets, checks the design invariants and prints the predicted events; for whole documents TLC lexes and parses the recorded text itself) and TLC judges the real PullParser events against it (spec/Trace_Parser.tla): clauses EventsLocatedInOrder, EventsBracketed on the recorded events; exact equality of every span and label with the specification is reported as drift. The inputs of the parser kernels also go through the span recorder under extension subsets that switch single gates (quantity value / unit, modifier, alias and note spans have their own arithmetic).",
         design="6 (C04), 3.2", technique="TLA+ lexer model + TLC exhaustive short-string generation + trace validation of recorded spans",
         note=PARSE_NOTE),
     "C05": dict(
         text="Same corpus as C04 plus `---` fence lines at every line position and front-matter documents with LF/CRLF/no "
              "final newline. TLC judges each recorded event stream with Covered (spec/CookSpans.tla): the documented front "
              "matter split and comment syntax are written in TLA+ independently of the implementation, and every letter "
-             "or digit outside comments must lie inside some event span whenever the stream has no error event.",
+             "or digit outside comments must lie inside some event span whenever the stream has no error event. The inputs of the parser kernels (spec/MC_Parser.tla alphabets, enumerated in Python from the same table) and two narrow lexer alphabets (comment terminators behind dash runs; what may follow a component) are part of the corpus.",
         design="6 (C05)", technique="TLA+ conservation predicate (independent comment/front-matter scanner) judged by TLC over recorded event streams",
         note=PARSE_NOTE),
     "C06": dict(
@@ -81,7 +81,7 @@ CHECKS = {
              "of factors; TLC judges per component the reported outcome and the physical amount before/after (value x unit "
              "ratio, whatever unit it was fitted to), cookware/timers/inline quantities/names/relations/steps/metadata "
              "unchanged, default_scale verbatim, scale_to_servings(n) = scale(n / first declared) with the base taken from "
-             "the specification's prediction (spec/Trace_Scale.tla).",
+             "the specification's prediction (spec/Trace_Scale.tla). Amounts are measured with the specification's standard definitions (CookConvert!StdDefs) whenever both units have one, so that a wrong ratio inside the library cannot cancel out; SI-prefixed units, `serves` / `yield` and servings set by hand (set_servings) are part of the corpus.",
         design="6 (C08), 3.6", technique="TLA+ predicted recipe model + scaling rules + TLC simulation + replay + trace validation of scaled components",
         note="Trusted: TLC, the projection; amounts are compared in f64 (1e-9 relative) by the harness because TLC has no reals."),
     "C09": dict(
@@ -94,7 +94,7 @@ CHECKS = {
              "real-world definitions (StdDefs): every ordered pair of units x 7 values must agree with them (1e-6) and "
              "there-and-back / via-every-third-unit must agree with the direct conversion (1e-9). Valid CookDoc recipes go "
              "through ScaledRecipe::convert to both systems: amounts preserved, units from the designated list, failures "
-             "unchanged and all reported.",
+             "unchanged and all reported. Quantity::fit is swept over 409 values x every bundled unit (FitPreservesAmount, measured with StdDefs), and ScaledRecipe::convert runs on a range x unit grid with references that carry their own quantity.",
         design="6 (C09), 3.6", technique="TLA+ exact-rational conversion model + TLC enumeration + replay + trace validation; standard definitions as spec constants",
         note="Trusted: TLC; the IEEE evaluation and the tolerances are the harness' (TLC has no reals); StdDefs are the SI / US "
              "customary definitions. A typo below the precision of units.toml itself (~1e-7) cannot be seen."),
@@ -151,7 +151,7 @@ CHECKS = {
              "exhaustively; each is written through `>>` and through a YAML front matter, parsed with the bundled, the empty "
              "and a renamed-units converter, and TLC judges the recorded warning flag and accessor results "
              "(spec/Trace_StdMeta.tla): reading as documented, out-of-form => warning and nothing, warning <=> nothing, "
-             "typed Metadata accessors agree, servings stored for scaling.",
+             "typed Metadata accessors agree, servings stored for scaling. A fourth converter whose minutes cannot be found under an English key while `m` is the metre, and documents with an out-of-form `time` next to valid prep / cook times, are part of the corpus.",
         design="6 (C13), 3.10", technique="TLA+ generator of documented metadata shapes with exact predictions + TLC enumeration + trace validation of accessors",
         note="Trusted: TLC; numbers travel as decimal strings; the renamed converter keeps `min` reachable (the reader looks "
              "minutes up under English keys - a converter renaming that too cannot read durations, recorded as an observation)."),
@@ -197,7 +197,7 @@ CHECKS = {
              "parse / parse_metadata / parse_with_options(validator) / parse+scale+convert+group), with the baseline of "
              "every (operation, input) from a fresh parser; TLC validates each history against the model's notion of an "
              "explainable history (spec/Trace_Shared.tla): per-thread Begin/End alternation and every End carrying the "
-             "sequential baseline. Every baseline comes from a pristine process (one per operation x input x configuration), so that process-wide state of an earlier call cannot be in the baseline either.",
+             "sequential baseline. Every baseline comes from a pristine process (one per operation x input x configuration), so that process-wide state of an earlier call cannot be in the baseline either. Every other run adds 40 cold-start rounds: a brand-new parser, all threads released together on the same prose.",
         design="6 (C18), 3.11", technique="TLA+ concurrency model checked exhaustively + trace validation of recorded multi-thread and sequential histories",
         note="Trusted: TLC; a 64-bit hash of JSON image + ordered diagnostics stands for the result. Real thread schedules are "
              "those the OS produces (their number is reported), not an exhaustive set."),
@@ -211,7 +211,7 @@ CHECKS = {
              "taken as parsed, default-scaled, scaled by several factors and converted to both systems, serialised to JSON, "
              "read back, compared and serialised again by the recorder; TLC judges every record (Returns, "
              "SerializesAndDeserializes, DeserializedEqualsOriginal, ReserializationIdentical) and the final coverage record "
-             "(EveryVariantExercised: an unexercised constructor fails the run instead of passing silently).",
+             "(EveryVariantExercised: an unexercised constructor fails the run instead of passing silently). Texts with characters JSON escapes in every position, empty collections under the standard keys, amounts of exactly zero and improper fractions are part of the corpus.",
         design="6 (C15)", technique="TLA+ generator (CookDoc) + trace validation of serde round trips with a variant-coverage clause",
         note="Trusted: TLC, serde / serde_json (built with float_roundtrip) / serde_yaml as black boxes. ScaledRecipe has no "
              "PartialEq: public fields plus the re-serialised image are compared. Two recorded findings (known_findings.json): "
@@ -225,7 +225,7 @@ CHECKS = {
              "mirror half canonically valid CookDoc recipes and the repository's recipes are parsed by parse_recipe (factors 1, "
              "0.5, 3) and compared by TLC with the core recipe projected to the same shape: sections/blocks/items in order, "
              "component lists, every item reference resolving through deref_component, per-step lists = the step's item "
-             "references, per-section lists = concatenation of the step lists.",
+             "references, per-section lists = concatenation of the step lists. Every combine case also runs with all amounts divided by 3 and by 7000 (sums no decimal rounding leaves intact).",
         design="6 (C19)", technique="TLA+ combine model + TLC exhaustive lists x selections + replay into the bindings + trace validation of the mirrored recipe",
         note="Trusted: TLC; quantities compared as shortest decimal strings; the bindings' uniffi scaffolding itself (the "
              "generated foreign-language glue) is not executed, the exported Rust functions are."),
